@@ -175,7 +175,10 @@ def _conform_filename(
         **_default_options(node=original_node, search=search, type_wanted=type_wanted)()
     )
     if original_node is None:
-        emit.file(replacement_node, filename=filename, mode="a", skip_black=False)
+        # Re-emit the whole module (as the replace path does) rather than appending raw text:
+        # appending glued the definition onto the last line of a file without a trailing newline
+        parsed_ast.body.append(replacement_node)
+        emit.file(parsed_ast, filename=filename, mode="wt", skip_black=False)
         return filename, True
     assert len(search) > 0
 
